@@ -83,6 +83,9 @@ pub enum Op {
 	/// a second, different reply to an already finalized slate (the same S1 received into the responder's other
 	/// account) is given to the sender's finalize: must be refused
 	RefinalizeOtherReply { s: u16 },
+	/// wallet w receives two payments (keys k, k+1) from the other wallet; the LATER one is mined first, the earlier
+	/// one a block later, so that key paths reach the chain out of allocation order
+	OutOfOrderReceives { w: u16 },
 	/// wallet w pays the other wallet, which immediately spends the still-unconfirmed output back with
 	/// minimum_confirmations = 0; both transactions are posted and mined (two blocks) before anyone refreshes
 	ZeroConfRelay { w: u16 },
@@ -1104,6 +1107,17 @@ impl Sim {
 					}
 				}
 			}
+			Op::OutOfOrderReceives { w } => {
+				let w = idx(*w, nw);
+				let r = self.out_of_order_receives(w);
+				OpOutcome {
+					effective: true,
+					kind: "out-of-order-receives".into(),
+					result: Some(r),
+					slate: None,
+					wallet: Some(w),
+				}
+			}
 			Op::ZeroConfRelay { w } => {
 				let w = idx(*w, nw);
 				let r = self.zero_conf_relay(w);
@@ -1249,6 +1263,35 @@ impl Sim {
 			Err(_) => Ok(()),
 			Ok(()) => Err("a finalized slate was finalized again with a different reply: accepted".into()),
 		}
+	}
+
+	/// See Op::OutOfOrderReceives.
+	pub fn out_of_order_receives(&mut self, w: usize) -> Result<(), String> {
+		if self.node_down {
+			return Err("node down".into());
+		}
+		let from = (w + 1) % self.world.wallets.len();
+		let mk = |s: &mut Sim, f: u16| -> Result<usize, String> {
+			let a = SendArgs { amount: AmountPick::Frac(f), use_all: false, ..SendArgs::default() };
+			let si = s.init_send(from, w, &a)?;
+			s.lock(si)?;
+			s.deliver(si)?;
+			s.finalize(si)?;
+			Ok(si)
+		};
+		let a = mk(self, 2500)?;
+		let b = mk(self, 3500)?;
+		// whatever else sits in the pool stays there: mine exactly b, then exactly a
+		let keep = self.world.node.take_mempool();
+		self.post(b)?;
+		self.mine(None, 0xffff)?;
+		self.post(a)?;
+		self.mine(None, 0xffff)?;
+		self.world.node.with(|st| st.mempool.extend(keep));
+		if self.slates[a].mined_at.is_none() || self.slates[b].mined_at.is_none() {
+			return Err("payments were not mined".into());
+		}
+		Ok(())
 	}
 
 	/// See Op::ZeroConfRelay.
